@@ -629,6 +629,17 @@ func init() {
 	unb := func(s Str) Value { return bytesToValues(s.bytes()) }
 	reg("bytes.Equal", func(in *Interp, fr *frame, a []Value) Value { return in.strEq(bstr(a[0]), bstr(a[1])) })
 	reg("bytes.Index", func(in *Interp, fr *frame, a []Value) Value { return in.strIndex(bstr(a[0]), bstr(a[1]), false) })
+	idxByte := func(last bool) intrinsicFn {
+		return func(in *Interp, fr *frame, a []Value) Value {
+			return in.strIndex(bstr(a[0]), strOfBytes([]SByte{sbyteOf(a[1])}), last)
+		}
+	}
+	reg("bytes.IndexByte", idxByte(false))
+	reg("bytes.LastIndexByte", idxByte(true))
+	reg("internal/bytealg.IndexByte", idxByte(false))
+	reg("internal/bytealg.IndexByteString", func(in *Interp, fr *frame, a []Value) Value {
+		return in.strIndex(strArg(a[0]), strOfBytes([]SByte{sbyteOf(a[1])}), false)
+	})
 	reg("bytes.LastIndex", func(in *Interp, fr *frame, a []Value) Value { return in.strIndex(bstr(a[0]), bstr(a[1]), true) })
 	reg("bytes.Contains", func(in *Interp, fr *frame, a []Value) Value {
 		return intrinsics["strings.Contains"](in, fr, []Value{bstr(a[0]), bstr(a[1])})
